@@ -63,12 +63,14 @@ func isFieldLoad(v ssa.Value, pkg, typ, field string) (ssa.Value, bool) {
 }
 
 func C05(c *Ctx) {
-	c.R.Explanation = "Decides structural necessary conditions of Walk's accounting on the SSA form of Spec.Walk: (R1) the unique call of Step lies in a counted loop whose induction variable starts at a constant, is advanced only by +1 once per iteration and is tested with '<' against Control.Limit, and in no inner loop, so steps <= max(Limit,0) on every path; (R2) the loop-carried message slice has exactly the definitions {parameter, itself, itself[1:]}, the message offered to Step is element 0 of the current slice, and the pop happens exactly under the 'Consumed != nil' edge; (R3) at the exits that report Limited or BreakpointReached, Remaining is the loop-carried slice current at that point; (R4) Step's state argument is the loop-carried state whose only back-edge definitions are itself and a copy of the stride's To; (R5) Done is reported only under 'stride.To == nil', Limited only on the exhausted-counter edge, BreakpointReached only under a breakpoint's verdict. (R6) every return of Step that is reachable after branch evaluation returns the stride built by that step: Walk pops a message only on the stride's Consumed field, so a step that consulted the message and returns no stride makes Walk offer the same message again. Batch-split equivalence and quiescence are not decided."
+	c.R.Explanation = "Decides structural necessary conditions of Walk's accounting on the SSA form of Spec.Walk: (R1) the unique call of Step lies in a counted loop whose induction variable starts at a constant, is advanced only by +1 once per iteration and is tested with '<' against Control.Limit, and in no inner loop, so steps <= max(Limit,0) on every path; (R2) the loop-carried message slice has exactly the definitions {parameter, itself, itself[1:]}, the message offered to Step is element 0 of the current slice, and the pop happens exactly under the 'Consumed != nil' edge; (R3) at the exits that report Limited or BreakpointReached, Remaining is the loop-carried slice current at that point; (R4) Step's state argument is the loop-carried state whose only back-edge definitions are itself and a copy of the stride's To; (R5) Done is reported only under 'stride.To == nil', Limited only on the exhausted-counter edge, BreakpointReached only under a breakpoint's verdict. (R6) every return of Step that is reachable after branch evaluation returns the stride built by that step: Walk pops a message only on the stride's Consumed field, so a step that consulted the message and returns no stride makes Walk offer the same message again. (R7) no list of binding sets that the matcher returns is extended inside a range over a Go map: Branch.try offers the candidates to the guard in list order and follows the first one accepted, so a list built in map order makes the step taken depend on the run. Batch-split equivalence and quiescence are not decided."
 	c.R.Rule("C05-R1", "E3", "step bound: Step once per iteration of a canonical counted loop", 3)
 	c.R.Rule("C05-R2", "E5", "queue discipline: front pop under Consumed, first element offered", 3)
 	c.R.Rule("C05-R3", "E5", "truthful remainder at Limited / BreakpointReached", 2)
 	c.R.Rule("C05-R4", "E5", "state chaining", 1)
 	c.R.Rule("C05-R5", "E3", "stop reasons are stored only under their conditions", 3)
+	c.R.Rule("C05-R7", "E5", "the order in which candidate bindings are offered to a guard does not follow map iteration", 1)
+	c05CandidateOrder(c)
 	c.R.Rule("C05-R6", "E3", "a step that evaluated branches reports its stride (which records the consumption)", 1)
 	c05StrideAfterBranches(c)
 	walk := c.fn("core", "Spec", "Walk")
@@ -612,5 +614,45 @@ func c05StrideAfterBranches(c *Ctx) {
 	}
 	if n == 0 {
 		c.R.Break("C05-R6: no return of Step after branch evaluation")
+	}
+}
+
+// c05CandidateOrder: C05-R7.
+func c05CandidateOrder(c *Ctx) {
+	m := c.newMatchModel()
+	n := 0
+	for _, f := range m.fns {
+		loops := flow.Loops(f)
+		idx := 0
+		ssau.Instrs(f, func(in ssa.Instruction) {
+			cl, ok := in.(*ssa.Call)
+			if !ok {
+				return
+			}
+			b, isB := cl.Common().Value.(*ssa.Builtin)
+			if !isB || b.Name() != "append" {
+				return
+			}
+			// a list of binding sets (or of lists of them)
+			t := cl.Type().String()
+			if !strings.Contains(t, "Bindings") {
+				return
+			}
+			inMap := ""
+			for _, l := range enclosingLoops(loops, cl.Block()) {
+				if op := loopOperand(l); op != nil {
+					if _, isMap := op.Type().Underlying().(*types.Map); isMap {
+						inMap = c.posv(op)
+					}
+				}
+			}
+			n++
+			idx++
+			key := fmt.Sprintf("%s: result list extended #%d", fname(f), idx)
+			c.R.Check(inMap == "", "C05-R7", key, c.pos(cl), "not inside a range over a map", "a list of binding sets is extended inside a range over a Go map ("+inMap+"): the order of the candidates follows map iteration, and with a guard that accepts more than one of them the branch taken differs from run to run")
+		})
+	}
+	if n == 0 {
+		c.R.Break("C05-R7: the matcher never extends a list of binding sets")
 	}
 }
